@@ -1,9 +1,9 @@
 package props
 
 import (
-	"strings"
 	"fmt"
 	"reflect"
+	"strings"
 	"testing"
 
 	"github.com/skx/evalfilter/v2/ast"
@@ -269,8 +269,39 @@ func isNilNode(n ast.Node) bool {
 	return false
 }
 
+// transplantFrames put a construct X where the grammar expects an operand.
+var transplantFrames = []string{"switch ( X ) { default { zt = 1; } }", "switch ( X ) { case 1 { zt = 1; } }", "switch ( X ) { }", "zt = X;", "if ( X ) { zt = 1; }", "zt = [ X ];",
+	"zt = { \"k\": X };", "zt = 1 + ( X );", "foreach zv in X { zt = zv; }", "while ( X ) { zt = 1; }", "zt = id( X );", "zt = true ? X : 2;", "zt = ! X;", "zt = ( X )[0];", "local zl; zl = X;"}
+
+func drawTransplanted(rt *rapid.T) string {
+	// a whole construct of a generated program (a function definition, a
+	// loop, a switch, an assignment ...) transplanted to where an operand is
+	// expected; the program follows, so that what the construct defines is used
+	pr := gen.Program(rt, gen.ProgOpts{Depth: 2, Block: 3, Funcs: 2, IncDec: true, Ternary: true, Switch: true, EarlyRet: true, BigInts: true, NoSqrtFold: true})
+	pre := ""
+	for _, v := range pr.In.Vars {
+		if gen.LiteralOK(v.V) {
+			pre += v.Name + " = " + lang.ExprText(lang.ValueExpr(v.V)) + ";\n"
+		}
+	}
+	if len(pr.P.Stmts) == 0 {
+		return pre + "return 1;"
+	}
+	k := gen.Uniform(rt, "transplant", len(pr.P.Stmts))
+	x := strings.TrimSpace(lang.ProgramText(&lang.Program{Stmts: pr.P.Stmts[k : k+1]}))
+	x = strings.TrimSuffix(x, ";")
+	frame := transplantFrames[gen.Uniform(rt, "frame", len(transplantFrames))]
+	rest := pr.P.Stmts
+	if rapid.Bool().Draw(rt, "moved") {
+		rest = append(append([]lang.Stmt{}, pr.P.Stmts[:k]...), pr.P.Stmts[k+1:]...)
+	}
+	return pre + strings.Replace(frame, "X", x, 1) + "\n" + lang.ProgramText(&lang.Program{Stmts: rest})
+}
+
 func drawOddProgram(rt *rapid.T, corpus []string) (string, string) {
-	switch gen.Uniform(rt, "oddkind", 4) {
+	switch gen.Uniform(rt, "oddkind", 5) {
+	case 4:
+		return drawTransplanted(rt), "transplanted"
 	case 0:
 		toks := drawTokens(rt, rapid.IntRange(1, 25).Draw(rt, "ntok"))
 		s, _ := render(rt, toks, false)
